@@ -1,6 +1,7 @@
 """Subprocess driver for C09: emit digests of everything the generator produces for each document.
 
-usage: python c09_driver.py <repo_dir> <scratch_dir>
+usage: python c09_driver.py <repo_dir> <scratch_dir> [reverse]   (reverse: documents in the opposite order -
+the output for a document must not depend on what the process generated before it)
 <scratch_dir>/docN/{a.json,...}; prints one JSON object: {docN: {...}}
 """
 import hashlib
@@ -30,7 +31,7 @@ def sha(text):
 
 
 out = {}
-for name in sorted(os.listdir(scratch)):
+for name in sorted(os.listdir(scratch), reverse=len(sys.argv) > 3 and sys.argv[3] == "reverse"):
     d = os.path.join(scratch, name)
     if not os.path.isdir(d):
         continue
